@@ -10,6 +10,7 @@ All theorems hold for every configuration (acks ≠ None is built in: every atte
 transport error) and every reachable state / accepted event, i.e. every finite event sequence.
 -/
 import KafkaVerif.Lemmas.WriterCompl
+import KafkaVerif.Gen.WriterConsts
 
 namespace KV.C01
 open KV KV.Writer
@@ -125,6 +126,16 @@ theorem assign_is_balancer_choice (cfg : Cfg) (s s' : State) (c i : Nat) (tp : T
   obtain ⟨m, hmi, hch⟩ := msgAt_elim hm
   cases hs
   exact ⟨C, m, hC, hlen, hmi, by simpa using hch, by simp⟩
+
+/-- **makeError_nil_only_for_zero** — the source's `makeError` (regenerated on every run) turns a produce response's
+error code into a nil error only for code 0; this is what the model's `consistent` relies on: a broker rejection with
+any other code (negative ones included) cannot end an attempt without error. -/
+theorem makeError_nil_only_for_zero (code : Int) : Gen.makeErrorNil code = true ↔ code = 0 := by
+  simp [Gen.makeErrorNil]
+
+theorem rejection_is_an_error (c code : Code) (h : consistent (some (.rejected c)) code = true) : code ≠ 0 ∧ code = c := by
+  simp [consistent] at h
+  exact ⟨fun h0 => h.2 (h.1 ▸ h0), h.1⟩
 
 /-- **ok_needs_broker_ack** — an attempt can end without error on the client side only if the broker applied and
 acknowledged exactly that attempt. -/
